@@ -393,6 +393,20 @@ where
             // first call is running
             self.state.response.set(Some(resp));
 
+            // start the call before the next readiness check,
+            // service's readiness must take this call into account
+            match Pin::new(&mut fut).poll(cx) {
+                Poll::Ready(Err(err)) => {
+                    self.state.error.set(Some(IoDispatcherError::Service(err)));
+                    return;
+                }
+                Poll::Ready(res) => {
+                    queue.push_back(ServiceResult::Ready(res));
+                    return;
+                }
+                Poll::Pending => (),
+            }
+
             let response_idx = self.state.base.get().wrapping_add(queue.len());
             queue.push_back(ServiceResult::Pending);
 
